@@ -355,6 +355,13 @@ func (x *Exec) evalSel(env *Env, e *SExpr) Val {
 		if v, ok := env.vars[e.X.Name+"."+e.Name]; ok {
 			return v
 		}
+		if e.X.Name == "top" && x.topFrame != nil && env.fr != x.topFrame {
+			// a name of the function under verification, seen from an inlined callee's loop
+			n := *env
+			n.fr = x.topFrame
+			n.vars = map[string]Val{}
+			return x.evalIdent(&n, e.Name)
+		}
 	}
 	// package-qualified name
 	if e.X.K == "ident" {
@@ -442,6 +449,19 @@ func (x *Exec) evalAddr(env *Env, e *SExpr) *Addr {
 		}
 		return nil
 	case "sel":
+		// top.NAME.field: a local of the function under verification, seen from an inlined callee
+		if e.X.K == "sel" && e.X.X.K == "ident" && e.X.X.Name == "top" && x.topFrame != nil && env.fr != x.topFrame {
+			n := *env
+			n.fr = x.topFrame
+			n.vars = map[string]Val{}
+			base := x.evalIdent(&n, e.X.Name)
+			if base.T != nil && base.A == nil {
+				if pt, ok := base.T.Underlying().(*types.Pointer); ok {
+					return x.fieldOfPtr(base.L[0], pt.Elem(), e.Name)
+				}
+			}
+			return nil
+		}
 		// pkg.Global
 		if e.X.K == "ident" {
 			if _, isVar := env.vars[e.X.Name]; !isVar {
@@ -660,6 +680,13 @@ func (x *Exec) evalCall(env *Env, e *SExpr) Val {
 	// method-style pure function: recv.name(args)
 	if e.X.K == "sel" {
 		recv := x.eval(env, e.X.X)
+		if dt := x.E.dynamicType(recv); dt != nil && isRefLike(dt) {
+			// interface value of known dynamic type: its own abstraction function
+			if pf := x.E.pureMethod(dt, e.X.Name); pf != nil && !pf.Abstract {
+				cr := Val{T: dt, L: []*Term{recv.L[1]}}
+				return x.applyPure(env, pf, &cr, e.Args)
+			}
+		}
 		if pf := x.E.pureMethod(recv.T, e.X.Name); pf != nil {
 			return x.applyPure(env, pf, &recv, e.Args)
 		}
